@@ -27,6 +27,8 @@ package skiplist
 //@ modifies n.nx[level], n.del[level]
 //@ ensures n.nx[level] == ptr && (n.del[level] <==> deleted)
 
+// myMarks0[n]: how often THIS thread's CAS put the delete mark on level 0 of n (the linearization point of a delete).
+//@ ghost global myMarks0 [ref]int
 //@ func (*Node).dcasNext
 //@ step-op
 //@ trusted L0 abstraction of the packed next word (single CAS on pointer+flag)
@@ -35,6 +37,8 @@ package skiplist
 //@ ensures result <==> (old(n.nx[level]) == prevPtr && (old(n.del[level]) <==> prevIsdeleted))
 //@ ensures result ==> n.nx[level] == newPtr && (n.del[level] <==> newIsdeleted)
 //@ ensures !result ==> n.nx[level] == old(n.nx[level]) && (n.del[level] <==> old(n.del[level]))
+//@ modifies myMarks0[n]
+//@ ensures myMarks0[n] == old(myMarks0[n]) + ite(result && level == 0 && !prevIsdeleted && newIsdeleted, 1, 0)
 
 //@ func (Node).Level
 //@ inline
@@ -641,6 +645,9 @@ package skiplist
 //@ loop 1 invariant delNode != nil && sts != nil
 //@ loop 2 invariant delNode != nil && sts != nil
 //@ at-call (*skiplist.Node).dcasNext assert[g-mark] arg0 == delNode && !arg4 && arg5 && arg3 == arg2
+//@ loop 1 invariant[winner] (marked <==> myMarks0[delNode] > old(myMarks0[delNode])) && myMarks0[delNode] >= old(myMarks0[delNode])
+//@ loop 2 invariant[winner] (marked <==> myMarks0[delNode] > old(myMarks0[delNode])) && myMarks0[delNode] >= old(myMarks0[delNode])
+//@ ensures[single-winner] result <==> myMarks0[delNode] > old(myMarks0[delNode])
 
 //@ func (*Skiplist).Insert4 @step
 //@ props C13
